@@ -147,7 +147,7 @@ def guardRecToJ (r : GuardRec) : J :=
   .obj [("overridden", .bool r.overridden), ("baseMutates", .bool r.baseMutates),
         ("directSealed", .bool r.directSealed), ("directAcc", .bool r.directAcc),
         ("hasRaw", .bool r.hasRaw), ("delegates", J.ofStrs (r.delegates.map EP.name)),
-        ("accScope", .bool r.accScope)]
+        ("accScope", .bool r.accScope), ("precheck", .bool r.precheck)]
 
 def handle (j : J) : J :=
   match j.getStr? "op" with
